@@ -60,6 +60,10 @@ class CallMixin:
             return self.static_get_attr(obj, so, name, node)
         co = self.classobj_bound(obj)
         if co is not None:
+            lk = co.lookup(name)
+            if lk is not None and lk[0] == 'attr':
+                # class attribute of a class object known only up to a bound: subclasses may override it
+                return self.symbolic_class_attr(Val.r(obj), co, name)
             return self.static_get_attr(obj, co, name, node)
         k = self.kind_of(obj, force=True)
         if k == 'str':
@@ -211,6 +215,10 @@ class CallMixin:
         have = [(k, lk) for k, lk in have if lk is not None and lk[0] == 'attr']
         if not have:
             return None
+        for k, lk in have:
+            if (lk[2].qualname, name) in getattr(self, 'class_attr_final', ()):
+                # A-classes: this class-level constant is not overridden by subclasses
+                return self.class_attr_val(lk[2], name, lk[1])
         exact = self.known_cls.get(smt.simp(obj).get_id())
         if exact is not None:
             lk = exact.lookup(name)
@@ -226,6 +234,18 @@ class CallMixin:
             self.use_class(k)
             self._add_axiom(f(z3.IntVal(k.cid)) == self.class_attr_val(lk[2], name, lk[1]))
         return smt.simp(f(smt.cls_of(Val.r(obj))))
+
+    def symbolic_class_attr(self, cid_term, c: ClassInfo, name: str):
+        f = z3.Function(f'classattr_{name}', smt.I, Val)
+        for (oq, an), spec in getattr(self, 'class_attr_types', {}).items():
+            if an == name and c.is_subclass(self.resolve_class(oq)):
+                self.assume(self.type_formula(f(cid_term), spec))
+        for k in self.subclasses.get(c.qualname, [c]):
+            lk = k.lookup(name)
+            if lk is not None and lk[0] == 'attr':
+                self.use_class(k)
+                self._add_axiom(f(z3.IntVal(k.cid)) == self.class_attr_val(lk[2], name, lk[1]))
+        return smt.simp(f(cid_term))
 
     def class_attr_val(self, owner: ClassInfo, name: str, expr: ast.expr):
         ck = ('classattr', owner.qualname, name)
